@@ -5,8 +5,9 @@ MICRO = {
 PROPS = {
     'C16': dict(
         micro=['dgram'],
-        modelled="datagrams.rs complete: DatagramState::{received,recv,make_space_for,has_send_buffer_space,drop_oversized,write}, Datagrams::{send,max_size,recv,send_buffer_space} executed on a real (pre-handshake) Connection whose inputs (config buffer sizes, path MTU, remote CID length, peer max_datagram_frame_size) are set explicitly; frame::Datagram::{encode,size}; the two Connection code fragments that clear send_blocked (DATAGRAM loop of populate_packet, black-hole branch of detect_lost_packets) as replicas around the real calls, their source text pinned by T1 shape anchors",
-        not_modelled="end-to-end at-most-once across the network (needs Dedup + packet pipeline: system simulator of DESIGN 5.16), 1-RTT tag length other than the 16-byte guess (keys not installed in the executor), overflow of len + recv_buffered (needs a 2^64 byte window)",
+        sim=[('dgq', 60, 600)],
+        modelled="datagrams.rs complete: DatagramState::{received,recv,recv_cost,make_space_for,has_send_buffer_space,drop_oversized,drop_oversized_front,write}, Datagrams::{send,max_size,recv,send_buffer_space} executed on a real (pre-handshake) Connection whose inputs (config buffer sizes, path MTU, remote CID length, peer max_datagram_frame_size) are set explicitly; frame::Datagram::{encode,size}; the Connection code fragments that clear send_blocked (DATAGRAM loop of populate_packet, black-hole branch of detect_lost_packets) as replicas around the real calls, their source text pinned by T1 shape anchors, and the head-of-queue purge (drop_unsendable_datagrams) through the real Connection::poll_transmit; predict_1rtt_overhead for the short header and for the 0-RTT long header; liveness of the send queue end-to-end (scenario dgq: migration to a fresh path, path_changed, 0-RTT with longer server CIDs; accepted datagrams are transmitted or dropped, Blocked is followed by DatagramsUnblocked, a datagram of max_size() accepted with 0-RTT keys only fits a 0-RTT packet)",
+        not_modelled="end-to-end at-most-once across the network (needs Dedup + packet pipeline: system simulator of DESIGN 5.16), 1-RTT tag length other than the 16-byte guess (keys not installed in the executor), overflow of cost + recv_buffered (needs a 2^64 byte window); the executor's connection never holds 1-RTT keys (the short-header branch of predict_1rtt_overhead is covered by the T1 translation, the theorems and the simulator only)",
     ),
     'C13': dict(
         micro=['mtud'],
